@@ -8,6 +8,7 @@ import (
 	"net"
 	"net/textproto"
 	"strings"
+	"sync"
 	"time"
 )
 
@@ -40,6 +41,10 @@ type ScriptConn struct {
 	FailWritesFrom int
 	NWrites        int
 	Closed         bool
+
+	// OnRemoteAddr, when set, runs inside RemoteAddr() — the first thing a session does with its
+	// connection, before any bookkeeping (a place for a Gate).
+	OnRemoteAddr func()
 
 	pending []byte
 	eofNext bool
@@ -140,7 +145,14 @@ func (c *ScriptConn) Write(p []byte) (int, error) {
 
 func (c *ScriptConn) Close() error                       { c.Closed = true; return nil }
 func (c *ScriptConn) LocalAddr() net.Addr                { return scriptAddr{} }
-func (c *ScriptConn) RemoteAddr() net.Addr               { return scriptAddr{} }
+func (c *ScriptConn) RemoteAddr() net.Addr {
+	if c.OnRemoteAddr != nil {
+		f := c.OnRemoteAddr
+		c.OnRemoteAddr = nil
+		f()
+	}
+	return scriptAddr{}
+}
 func (c *ScriptConn) SetDeadline(t time.Time) error      { return nil }
 func (c *ScriptConn) SetReadDeadline(t time.Time) error  { return nil }
 func (c *ScriptConn) SetWriteDeadline(t time.Time) error { return nil }
@@ -369,3 +381,113 @@ func ModelScannerText(sc *bufio.Scanner) string { return scanOf[sc].cur }
 
 // ModelScannerErr models Err (the 64 KiB token limit is outside the bounds explored).
 func ModelScannerErr(sc *bufio.Scanner) error { return nil }
+
+// ---- gates: harness-placed schedule choices ----
+// Gate(name) is a point where the calling goroutine may be held back (symbolic boolean input
+// "gate_<name>") until another goroutine calls Open(name). The same code runs natively with real
+// goroutines, so a schedule found by the engine is replayed by the assignment of the gate inputs.
+
+var gateMu sync.Mutex
+var gateCh = map[string]chan struct{}{}
+var gateOpen = map[string]bool{}
+
+func gateOf(name string) chan struct{} {
+	gateMu.Lock()
+	defer gateMu.Unlock()
+	c, ok := gateCh[name]
+	if !ok {
+		c = make(chan struct{})
+		gateCh[name] = c
+	}
+	return c
+}
+
+// Gate holds the caller until Open(name) if the input gate_<name> is true.
+func Gate(name string) {
+	if Bool("gate_" + name) {
+		<-gateOf(name)
+	}
+}
+
+// Open releases the gate (idempotent).
+func Open(name string) {
+	c := gateOf(name)
+	gateMu.Lock()
+	defer gateMu.Unlock()
+	if !gateOpen[name] {
+		gateOpen[name] = true
+		close(c)
+	}
+}
+
+// ResetGates forgets all gates (start of a harness).
+func ResetGates() {
+	gateMu.Lock()
+	defer gateMu.Unlock()
+	gateCh = map[string]chan struct{}{}
+	gateOpen = map[string]bool{}
+}
+
+// ScriptListener is a net.Listener handing out the given connections, then blocking until closed.
+type ScriptListener struct {
+	Conns    []net.Conn
+	Accepted int
+	closed   chan struct{}
+	once     sync.Once
+	AfterClose int // Accept calls that returned the "closed" error
+}
+
+// NewScriptListener creates the listener.
+func NewScriptListener(conns ...net.Conn) *ScriptListener {
+	return &ScriptListener{Conns: conns, closed: make(chan struct{})}
+}
+
+type listenerClosedErr struct{}
+
+func (listenerClosedErr) Error() string   { return "use of closed network connection" }
+func (listenerClosedErr) Timeout() bool   { return false }
+func (listenerClosedErr) Temporary() bool { return false }
+
+// Accept implements net.Listener.
+func (l *ScriptListener) Accept() (net.Conn, error) {
+	select {
+	case <-l.closed:
+		l.AfterClose++
+		return nil, listenerClosedErr{}
+	default:
+	}
+	if l.Accepted < len(l.Conns) {
+		c := l.Conns[l.Accepted]
+		l.Accepted++
+		return c, nil
+	}
+	<-l.closed
+	l.AfterClose++
+	return nil, listenerClosedErr{}
+}
+
+// Close implements net.Listener.
+func (l *ScriptListener) Close() error {
+	l.once.Do(func() { close(l.closed) })
+	return nil
+}
+
+// Addr implements net.Listener.
+func (l *ScriptListener) Addr() net.Addr { return scriptAddr{} }
+
+// CancelCtx is a minimal cancellable context.
+type CancelCtx struct {
+	done chan struct{}
+	once sync.Once
+}
+
+// NewCancelCtx creates a context that is cancelled by Cancel().
+func NewCancelCtx() *CancelCtx { return &CancelCtx{done: make(chan struct{})} }
+
+func (c *CancelCtx) Deadline() (time.Time, bool)       { return time.Time{}, false }
+func (c *CancelCtx) Done() <-chan struct{}             { return c.done }
+func (c *CancelCtx) Err() error                        { return nil }
+func (c *CancelCtx) Value(key interface{}) interface{} { return nil }
+
+// Cancel closes Done.
+func (c *CancelCtx) Cancel() { c.once.Do(func() { close(c.done) }) }
